@@ -482,6 +482,17 @@ pub fn check_input(c: Consts, inp: &Inp, b: &Budget, l: &mut Local) {
         l.eval();
         conforms(inp, "async", p, &m, &r, l);
         check_property(c, inp, &reference, &r, "async body chunking", p, l);
+        // the same body with one EMPTY frame somewhere in it (a body may deliver empty frames; they carry no
+        // bytes and are not the end of the body): the outcome must be that of the whole buffer too
+        if p.len() <= 3 {
+            for at in 0..=p.len() {
+                let mut q = p.clone();
+                q.insert(at, 0);
+                let r = real_async(&inp.data, &q);
+                l.eval();
+                check_property(c, inp, &reference, &r, "async body chunking with an empty frame", &q, l);
+            }
+        }
     }
 
     // ---- every composition of tiny inputs (all 2^(n-1) chunkings), sync and async, on the real code
